@@ -704,7 +704,7 @@ func judgeUnit(im *Impl, n *Node, ur *unitRun, lines []logLine) {
 		im.Hist("unit:ran-to-completion")
 	}
 	if everCancelled && runnerPid == 0 && len(lines) > 0 && lines[len(lines)-1].New.State != 4 {
-		im.Hist("note:cancel-before-runner-started-was-a-no-op")
+		im.Hist("note:cancelled-before-the-runner-was-launched")
 	}
 }
 
